@@ -182,6 +182,7 @@ def export_set(chk: Check, rng: common.Rng, thorough: bool):
     for key in CORPUS:
         if key in by_key:
             plan.append((progs.plugin_desc(by_key[key]), progs.plugin_cfg(by_key[key])))
+    plan.append((progs.gated_desc("softmax", "top", "f16"), progs.default_cfg()))      # listed float16 defect
     core = progs.core_programs(rng, n_random=12 if not thorough else 120, max_depth=3 if not thorough else 5,
                                n_dimuse=6 if not thorough else 90)
     for d in core:
